@@ -1,10 +1,11 @@
 """C06 — decoded audio depends only on frame position (partition and seek consistency)."""
 from ._handle_common import run_common
+from ..core import modules_for
 
 
 def run(ctx):
     q = ctx.tier == "quick"
-    run_common(ctx, "C06", ["SfProps.C06", "SfProps.C06Block", "SfProps.C01Dwvw"], l1_scripts=300 if q else 3000, stride=2 if q else 1, nops=40 if q else 80)
+    run_common(ctx, "C06", modules_for("C06"), l1_scripts=300 if q else 3000, stride=2 if q else 1, nops=40 if q else 80)
     if not getattr(ctx, "replay", None):
         from .. import blockcamp
         blockcamp.run(ctx, "C06", 160 if q else 1600)
